@@ -127,7 +127,7 @@ func genSimpleRequest(r *Rng, routes []genRoute) *Req {
 			} else if partner != nil && partner.toks[k].kind == 0 {
 				segs = append(segs, partner.toks[k].text) // aimed at both routes
 			} else {
-				segs = append(segs, r.Pick([]string{"x", "a", "b", "12", "ab", "a", "b", "%41b", "a%2Fb"}))
+				segs = append(segs, r.Pick([]string{"x", "a", "b", "12", "ab", "a", "b", "%41b", "a%2Fb", "team:blue", "a:b1"}))
 			}
 		}
 		if partner != nil {
